@@ -244,6 +244,29 @@ End(c) ==
                                 a |-> { n[2] : n \in { m \in r.notes : m[1] = x } }]]
            /\ UNCHANGED <<user, will, links>>
 
+(* C09: a hostile or malformed input on connection c.
+   closing classes (malformed packets: reserved type, oversize or 5-byte remaining length, string length beyond the
+   body, empty body, garbage): the protocol error ends the connection - exactly End(c), nothing else changes.
+   surviving classes (well-formed requests with extreme or ill-typed parameters): either the request is answered
+   (with an error or an ordinary reply) and NOTHING changes, or the connection is closed as above; no other
+   connection notices anything in either case. *)
+HostileClosing == {"type0", "type15", "oversize", "len5", "strlen", "garbage",
+                   "empty-connect", "empty-connack", "empty-publish", "empty-puback", "empty-subscribe", "empty-suback",
+                   "empty-unsubscribe", "empty-unsuback", "empty-pubrel", "short-connect"}
+HostileSurviving == {"sub-last-huge", "sub-last-max", "history-last-huge", "keygen-illtyped", "presence-illtyped",
+                     "link-longname", "pub-ttl-huge", "pub-window-extreme", "api-unknown", "ping-flood", "pub-many-options"}
+Hostile(c, cls, closed) ==
+    /\ conn[c] = "open"
+    /\ IF cls \in HostileClosing \/ closed
+       THEN End(c)
+       ELSE IF cls \in {"sub-last-huge", "sub-last-max"}
+       THEN Subscribe(c, "kAll", <<"a">>, "ok", 1000000000, "none")      \* an ordinary subscription asking for "everything"
+       ELSE /\ out' = [Quiet EXCEPT ![c] = [s |-> <<[t |-> "any"]>>, a |-> {}]]     \* c's own replies are not prescribed
+            /\ UNCHANGED svars
+
+(* C09, cluster port: a broken gossip / frame payload is rejected; no client notices anything *)
+ClusterHostile == out' = Quiet /\ UNCHANGED svars
+
 ---------------------------------------------------------------------------
 (* C02 / C08 / C18 at design level *)
 
